@@ -135,6 +135,21 @@ let run (args : (string * string) list) : string =
                                    | Some ol -> int_of_string ol = Bytes.length ob * 8 - List.length rest
                                    | None -> true)))
            | None -> add "offsets" "FAIL(decode-error)"));
+       (* Elias-Fano and degree-cumulative entries read back through the library *)
+       (match get_opt args "ef" with
+        | Some e when String.length e > 0 && (e.[0] >= '0' && e.[0] <= '9') ->
+          add "ef" (ok (List.map n_of_int (ints_of_string e) = sums))
+        | Some e -> add "ef" ("FAIL(" ^ e ^ ")")
+        | None -> ());
+       (match get_opt args "dcf" with
+        | Some e when String.length e > 0 && (e.[0] >= '0' && e.[0] <= '9') ->
+          let degs = List.map (fun l -> n_of_int (List.length l)) g in
+          add "dcf" (ok (List.map n_of_int (ints_of_string e) = prefix_sums N0 degs))
+        | Some e -> add "dcf" ("FAIL(" ^ e ^ ")")
+        | None -> ());
+       (match get_opt args "exits" with
+        | Some e -> add "exits" (ok (List.for_all (fun x -> x = 0) (ints_of_string e)))
+        | None -> ());
        (* 3. selector comparison *)
        (match get_opt args "comp" with
         | Some "greedy" ->
@@ -153,3 +168,18 @@ let run (args : (string * string) list) : string =
      end);
   Buffer.contents res
   end
+
+(* Channel "clistep": exit statuses and listings of CLI commands that produce no file set *)
+let run_step (args : (string * string) list) : string =
+  let res = Buffer.create 64 in
+  let add k v = Buffer.add_string res (" " ^ k ^ "=" ^ v) in
+  (match get_opt args "exit" with Some e -> add "exit" (ok (e = "0")) | None -> ());
+  (match get_opt args "exits" with
+   | Some e -> add "exits" (ok (List.for_all (fun x -> x = 0) (ints_of_string e))) | None -> ());
+  (match get_opt args "arcs" with Some a -> add "arcs" a | None -> ());
+  (* an arc-less input: the command must not report success without a file set *)
+  (match get_opt args "files" with
+   | Some f -> add "nofiles" (ok (f = "1" || get_opt args "exit" <> Some "0")); Buffer.clear res;
+               add "nofiles" (ok (f = "1" || get_opt args "exit" <> Some "0"))
+   | None -> ());
+  Buffer.contents res
